@@ -36,6 +36,8 @@ EXTENDS Temporal, Integers, TLC
 
 CONSTANTS
   ShardLists,          \* the shard lists explored; every one is accepted by the constructor (C18 decides that part)
+  Deployments,         \* the deployments explored: [uri, key] - per shard position the frontend (base URI) it is served from
+                       \* and the key it is configured with (a key number, or Unkeyed)
   Instants,            \* NotAfter instants of the first chain element (the bounds of the lists are drawn from the same set)
   Scenes,              \* subset of {"submit", "roots"}: the calls explored
   ChainKinds,          \* submitted chains explored: subset of {"x509", "precert", "precertPreIssuer"}
@@ -56,6 +58,22 @@ None == [k |-> "none"]
 MaxShards == 3
 AllShards == 1..MaxShards
 NoKey == 0                      \* a key that belongs to no shard of the list
+Unkeyed == -2                   \* the shard is configured without a key
+
+(* The DEPLOYMENT of the temporal log is part of its configuration: a shard is a window, a base URI and a key.       *)
+(* NAMED CLAUSE SharedFrontend: nothing makes the base URIs or the keys of the shards distinct - shards may be served *)
+(* from one frontend (dep.uri[s] = dep.uri[t]: the same base URI, up to trailing slashes) with different keys, may    *)
+(* share a key, or have none.  A shard's identity towards the property is ITS configured key: the SCT handed back for *)
+(* a certificate routed to shard s verifies under key dep.key[s] and names it, whoever else is served from the same   *)
+(* URI.  NAMED CLAUSE UnkeyedShard: the property speaks of a client configured with the key; what a shard configured  *)
+(* without one hands back is not judged (outcome "any", no safety demanded), routing and pacing still are.            *)
+VARIABLE dep        \* the deployment of this temporal log (fixed by Init)
+Keyed(s) == dep.key[s] # Unkeyed
+\* the key shard s's log signs with: the configured one (an unkeyed shard's log has the key of its own number)
+OwnKey(s) == IF Keyed(s) THEN dep.key[s] ELSE s
+Frontend(s) == dep.uri[s]
+\* requests per FRONTEND, given the requests made on behalf of every shard
+FrontReqs(rq, f) == (IF dep.uri[1] = f THEN rq[1] ELSE 0) + (IF dep.uri[2] = f THEN rq[2] ELSE 0) + (IF dep.uri[3] = f THEN rq[3] ELSE 0)
 
 Min(a, b) == IF a <= b THEN a ELSE b
 RECURSIVE Pow2(_)
@@ -110,28 +128,30 @@ SCTClass ==
     idLen0                |-> [SCTValid EXCEPT !.idLen = 0] ]
 SCTClasses == DOMAIN SCTClass
 OtherClasses == {"sigByOther", "idOfOther", "validForOther"}
-\* keys an answer of shard r's server may bring into play
+\* keys (key NUMBERS) an answer of shard r's server may bring into play; in a deployment with equal keys such a number
+\* may be the very key the shard is configured with - then the "foreign" SCT is a valid one, and the verdict says so
 Others(r, S) == ((1..Len(S)) \ {r}) \cup {NoKey}
 
-KeyOf(f, contacted, who) == IF f = "self" THEN contacted ELSE IF f = "other" THEN who ELSE -1
+KeyOf(f, contacted, who) == IF f = "self" THEN OwnKey(contacted) ELSE IF f = "other" THEN who ELSE -1
 \* what an SCT made from answer a of shard `contacted`'s server says, when handed back by a client routed to `routed`
 \* (AbsentId, as in LogClient.tla: an answer without id is attributed to the key the client verified with)
 Described(a, contacted, routed) ==
   LET r == SCTClass[a.class] IN
   [ signer |-> KeyOf(r.signer, contacted, a.who),
-    id     |-> IF r.idLen = 0 THEN routed ELSE KeyOf(r.id, contacted, a.who),
+    id     |-> IF r.idLen = 0 THEN OwnKey(routed) ELSE KeyOf(r.id, contacted, a.who),
     idLen  |-> IF r.idLen = 0 THEN 32 ELSE r.idLen,
     sigForm |-> r.sigForm, over |-> r.over, ext |-> r.ext ]
 \* the property: verifies under the key of the shard it was routed to, for the submitted chain and entry type,
 \* and names that key
-VerifiesFor(d, routed) == d.sigForm = "ok" /\ d.signer = routed /\ d.over = "same"
-NamesKey(d, routed) == d.idLen = 32 /\ d.id = routed
+VerifiesFor(d, routed) == d.sigForm = "ok" /\ d.signer = OwnKey(routed) /\ d.over = "same"
+NamesKey(d, routed) == d.idLen = 32 /\ d.id = OwnKey(routed)
 
 \* the ideal client, one conjunct per check
 SCTVerdict(a, contacted, routed) ==
   LET r == SCTClass[a.class]
       d == Described(a, contacted, routed) IN
-  IF r.idLen \notin {0, 32} \/ r.sigForm # "ok" THEN "error"
+  IF ~Keyed(routed) THEN "any"                      \* UnkeyedShard
+  ELSE IF r.idLen \notin {0, 32} \/ r.sigForm # "ok" THEN "error"
   ELSE IF ~VerifiesFor(d, routed) THEN "error"
   ELSE IF r.idLen = 0 THEN "any"
   ELSE IF ~NamesKey(d, routed) THEN "error"
@@ -179,12 +199,13 @@ VARIABLES
   hist,       \* history: the completed calls (for replay)
   last        \* the call completed by the last step, None otherwise
 
-vars == <<cfg, call, reqs, mult, Returned, ncalls, hist, last>>
+vars == <<cfg, dep, call, reqs, mult, Returned, ncalls, hist, last>>
 
 NShards == Len(cfg)
 Zero == [s \in AllShards |-> 0]
 
 Init == /\ cfg \in ShardLists
+        /\ dep \in Deployments
         /\ call = None /\ reqs = Zero /\ mult = Zero
         /\ Returned = {} /\ ncalls = 0 /\ hist = <<>> /\ last = None
 
@@ -204,7 +225,8 @@ SubmitStep(sub, routed, answers, waits, rq, m, end, outcome, layer, returns) ==
                ELSE "unasserted"
       sct == IF returns THEN Described(fin, routed, routed) ELSE None
   IN [k |-> "submit", method |-> sub.method, chain |-> sub.chain, first |-> sub.first, na |-> sub.na,
-      routed |-> routed, answers |-> answers, waits |-> waits, reqs |-> rq, mult |-> m,
+      routed |-> routed, answers |-> answers, waits |-> waits, reqs |-> rq,
+      freqs |-> [f \in AllShards |-> FrontReqs(rq, f)], mult |-> m,
       end |-> end, expect |-> outcome, layer |-> layer, carry |-> carry,
       result |-> IF returns THEN [k |-> "value", sct |-> sct]
                  ELSE [k |-> "error", carries |-> IF end = "answered" THEN fin ELSE None]]
@@ -221,18 +243,18 @@ Invoke(sub) ==
         /\ r = NoShard
         /\ reqs' = Zero
         /\ Done(SubmitStep(sub, NoShard, <<>>, <<>>, Zero, mult, "refused", "error", "client", FALSE), {})
-        /\ UNCHANGED <<cfg, mult>>
+        /\ UNCHANGED <<cfg, dep, mult>>
      \/ \* LaxFirstElement: refused before anybody is contacted
         /\ r # NoShard /\ sub.first = "lax"
         /\ reqs' = Zero
         /\ Done(SubmitStep(sub, r, <<>>, <<>>, Zero, mult, "refused", "any", "client", FALSE), {})
-        /\ UNCHANGED <<cfg, mult>>
+        /\ UNCHANGED <<cfg, dep, mult>>
      \/ \* the request goes to the routed shard, and to that shard only
         /\ r # NoShard
         /\ call' = [k |-> "submit", sub |-> sub, routed |-> r, answers |-> <<>>, waits |-> <<>>]
         /\ reqs' = [s \in AllShards |-> IF s = r THEN 1 ELSE 0]
         /\ last' = None
-        /\ UNCHANGED <<cfg, mult, Returned, ncalls, hist>>
+        /\ UNCHANGED <<cfg, dep, mult, Returned, ncalls, hist>>
 
 \* the routed shard's server answers the outstanding request
 Answer(st, cl, ra, who) ==
@@ -255,7 +277,7 @@ Answer(st, cl, ra, who) ==
                                                 !.waits = Append(@, IF Bumps(a) THEN Pow2(m2 - 1) ELSE 0)]
                   /\ reqs' = rq
                   /\ last' = None
-                  /\ UNCHANGED <<cfg, Returned, ncalls, hist>>
+                  /\ UNCHANGED <<cfg, dep, Returned, ncalls, hist>>
              ELSE /\ call.answers = <<>> => st \in Statuses
                   /\ st = 200 => cl \in FinalClasses
                   /\ st # 200 => cl = "valid"      \* a perfectly good SCT under a status that is not 200
@@ -266,14 +288,14 @@ Answer(st, cl, ra, who) ==
                           /\ Done(SubmitStep(call.sub, r, ans, call.waits, rq, mult, "answered", outcome, d[2], returns),
                                   IF returns THEN {[routed |-> r, method |-> call.sub.method, chain |-> call.sub.chain,
                                                     sct |-> Described(a, r, r)]} ELSE {})
-                          /\ UNCHANGED <<cfg, mult>>
+                          /\ UNCHANGED <<cfg, dep, mult>>
 
 \* The caller's context ends: while the (first) request is outstanding - the shard hangs - or during the pause
 \* before the request is made again.
 Expire ==
   /\ call # None /\ call.k = "submit"
   /\ Done(SubmitStep(call.sub, call.routed, call.answers, call.waits, reqs, mult, "expired", "error", "context", FALSE), {})
-  /\ UNCHANGED <<cfg, reqs, mult>>
+  /\ UNCHANGED <<cfg, dep, reqs, mult>>
 
 (* --- GetAcceptedRoots --- *)
 Failing(e, cls) == e.res = "ctx" \/ cls[e.s] \in RootsFail
@@ -287,7 +309,7 @@ StartRoots(cls) ==
   \* property only needs every shard asked; the completion orders below presuppose the concurrency of the code)
   /\ reqs' = [s \in AllShards |-> IF s <= NShards THEN 1 ELSE 0]
   /\ last' = None
-  /\ UNCHANGED <<cfg, mult, Returned, ncalls, hist>>
+  /\ UNCHANGED <<cfg, dep, mult, Returned, ncalls, hist>>
 
 InRoots == call # None /\ call.k = "roots"
 Undecided == InRoots /\ call.outcome = None
@@ -298,14 +320,14 @@ RootsArrive(s) ==
   /\ s \in call.flying /\ call.cls[s] # Hang
   /\ call' = [call EXCEPT !.flying = @ \ {s}, !.queue = Append(@, [s |-> s, res |-> "answer"])]
   /\ last' = None
-  /\ UNCHANGED <<cfg, reqs, mult, Returned, ncalls, hist>>
+  /\ UNCHANGED <<cfg, dep, reqs, mult, Returned, ncalls, hist>>
 
 \* the caller's context ends ...
 CtxEnds ==
   /\ CtxMayEnd /\ Undecided /\ call.ctx = "live"
   /\ call' = [call EXCEPT !.ctx = "ended", !.ctxAt = Len(call.queue)]
   /\ last' = None
-  /\ UNCHANGED <<cfg, reqs, mult, Returned, ncalls, hist>>
+  /\ UNCHANGED <<cfg, dep, reqs, mult, Returned, ncalls, hist>>
 
 \* ... and every request still outstanding fails with the context's error (they are indistinguishable: lowest first)
 RootsAbort(s) ==
@@ -313,7 +335,7 @@ RootsAbort(s) ==
   /\ s \in call.flying /\ \A u \in call.flying : s <= u
   /\ call' = [call EXCEPT !.flying = @ \ {s}, !.queue = Append(@, [s |-> s, res |-> "ctx"])]
   /\ last' = None
-  /\ UNCHANGED <<cfg, reqs, mult, Returned, ncalls, hist>>
+  /\ UNCHANGED <<cfg, dep, reqs, mult, Returned, ncalls, hist>>
 
 \* the collector takes the next result in completion order
 Collect ==
@@ -327,14 +349,14 @@ Collect ==
                   ELSE [call EXCEPT !.taken = @ + 1, !.acc = acc2,
                                     !.outcome = IF call.taken + 1 = NShards THEN [k |-> "ok", roots |-> acc2] ELSE None]
   /\ last' = None
-  /\ UNCHANGED <<cfg, reqs, mult, Returned, ncalls, hist>>
+  /\ UNCHANGED <<cfg, dep, reqs, mult, Returned, ncalls, hist>>
 
 FinishRoots ==
   /\ InRoots /\ call.outcome # None
   /\ Done([k |-> "roots", n |-> NShards, cls |-> call.cls, order |-> call.queue, taken |-> call.taken,
            ctxAt |-> call.ctxAt, reqs |-> reqs, result |-> call.outcome,
            roots |-> IF call.outcome.k = "ok" THEN call.outcome.roots ELSE <<>>], {})
-  /\ UNCHANGED <<cfg, reqs, mult>>
+  /\ UNCHANGED <<cfg, dep, reqs, mult>>
 
 RootsProgress == (\E s \in AllShards : RootsArrive(s) \/ RootsAbort(s)) \/ Collect \/ FinishRoots
 
@@ -356,6 +378,7 @@ TypeOK == /\ Len(cfg) \in 1..MaxShards
           /\ ncalls \in 0..MaxCalls
           /\ \A s \in AllShards : mult[s] \in 0..MaxMult /\ reqs[s] \in 0..MaxAnswers
           /\ call = None \/ call.k \in {"submit", "roots"}
+          /\ \A s \in AllShards : dep.uri[s] \in AllShards /\ dep.key[s] \in AllShards \cup {Unkeyed}
 
 \* C18 hands over: a list the constructor accepts routes every instant of its span to exactly one shard - the one
 \* the code-shaped ShardIndex finds - and instants outside it to none
@@ -376,10 +399,13 @@ RoutedToOneShard ==
               /\ last.routed = NoShard /\ last.end = "refused" /\ last.result.k = "error"
               /\ \A s \in AllShards : last.reqs[s] = 0
         /\ (last.first = "cert" /\ InIv(last.na, OverallSpan(cfg))) => last.reqs[last.routed] > 0
+        \* SharedFrontend: the only base URI that sees a request is the routed shard's
+        /\ \A f \in AllShards : last.freqs[f] > 0 => (last.routed # NoShard /\ f = Frontend(last.routed))
 
-\* OnlyVerifiedSCT(shard): whatever was handed back verifies under the key of the shard it was routed to, for the
-\* submitted chain and entry type, and its log id is the hash of THAT key
-OnlyVerifiedSCT == \A r \in Returned : VerifiesFor(r.sct, r.routed) /\ NamesKey(r.sct, r.routed)
+\* OnlyVerifiedSCT(shard): whatever was handed back verifies under the key CONFIGURED for the shard it was routed to
+\* (not the key of a neighbour served from the same URI), for the submitted chain and entry type, and its log id is the
+\* hash of THAT key
+OnlyVerifiedSCT == \A r \in Returned : Keyed(r.routed) => VerifiesFor(r.sct, r.routed) /\ NamesKey(r.sct, r.routed)
 
 \* a value is only ever produced by a 200 answer of the last request
 OnlyFrom200 == [][(last' # None /\ last'.k = "submit" /\ last'.result.k = "value") =>
